@@ -36,14 +36,14 @@ type FetchDriver struct {
 	CancelRate int // per-step chance (in 1/1000) to cancel when Cancel != nil; 0 = only when stuck
 	MaxSteps   int
 
-	mu        sync.Mutex
-	waiters   []*hookWaiter
-	wseq      int
-	Steps     int
-	Cancelled bool
+	mu             sync.Mutex
+	waiters        []*hookWaiter
+	wseq           int
+	Steps          int
+	Cancelled      bool
 	MainSemBlocked int // how often main was found blocked on the semaphore at quiescence
-	Leaked    int
-	fnGoid    atomic.Int64
+	Leaked         int
+	fnGoid         atomic.Int64
 }
 
 // Tainted is set when a run leaves goroutines behind that cannot be released (a fetch that
@@ -93,10 +93,10 @@ type quiesce struct {
 }
 
 type gInfo struct {
-	id      int64
-	parent  int64
-	state   string
-	frames  []string
+	id     int64
+	parent int64
+	state  string
+	frames []string
 }
 
 func parseStacks(buf []byte) []gInfo {
